@@ -695,11 +695,26 @@ def _reindex(evs, remap):
     return out
 
 
+def _old_capture(rng):
+    """What a thread map followed by an event chunk looks like, byte for byte (the stackshot is opaque data: it may hold the
+    remains of an older capture, or another trace file somebody was reading when the stackshot was taken)."""
+    import struct
+    tm = b''.join(writer.threadmap_entry(rng.randrange(1, 1 << 20), rng.randrange(1, 9999), writer.name_field(rng.ident(1, 8)))
+                  for _ in range(rng.randint(0, 2)))
+    k = rng.randint(1, 3)
+    recs = b''.join(records.pack(0x5000 + 7 * i, rng.words(), rng.randrange(1, 1 << 20), rng.pick([0x40c0050, 0x40c0051, 0x1400000, 0x7000004]))
+                    for i in range(k))
+    return (writer.TAG_THREADMAP + struct.pack('<Q', len(tm)) + tm + rng.randbytes(rng.pick([0, 0, 8, 5])) +
+            writer.TAG_EVENTS + struct.pack('<Q', 64 * k) + b'\x00' * 8 + recs)
+
+
 def _gen_filler(rng):
     parts = []
     for _ in range(rng.randint(0, 4)):
         r = rng.random()
-        if r < 0.3:
+        if r < 0.08:
+            parts.append(_old_capture(rng))
+        elif r < 0.3:
             parts.append(rng.randbytes(rng.randint(0, 40)))
         elif r < 0.5:
             parts.append(writer.TAG_THREADMAP)
